@@ -127,9 +127,10 @@ def depth_of(reg_tpl):
 def value_templates(lower, rich):
     """Value templates for a constant that may reference the constants in `lower` (indices)."""
     base = [{'int': '7'}, {'prim': 'unit'}, [{'prim': 'DROP'}],
-            {'prim': 'pair', 'args': [{'prim': 'int'}, {'prim': 'nat'}], 'annots': ['%f']}]
+            {'prim': 'pair', 'args': [{'prim': 'int'}, {'prim': 'nat'}], 'annots': ['%f']},
+            []]                                     # the empty sequence `{}`: the only falsy Micheline expression
     if rich:
-        base += [{'string': 'txt'}, {'prim': 'Pair', 'args': [{'int': '1'}, {'bytes': '00'}]}, []]
+        base += [{'string': 'txt'}, {'prim': 'Pair', 'args': [{'int': '1'}, {'bytes': '00'}]}]
     out = list(base)
     refs = [{'$ref': j} for j in lower]
     for r in refs:
@@ -163,6 +164,8 @@ REPRESENTATIVE_REGISTRIES = [
     [{'int': '7'}, [{'$ref': 0}, {'prim': 'DROP'}], {'prim': 'Pair', 'args': [{'$ref': 1}, {'$ref': 0}]}, {'$ref': 2}],
     # independent constants of the three sorts + a sequence of instructions
     [{'prim': 'unit'}, {'string': 'data'}, {'prim': 'SWAP', 'annots': ['@s']}, [{'prim': 'CDR'}, {'prim': 'NIL', 'args': [{'prim': 'operation'}]}, {'prim': 'PAIR'}]],
+    # the empty sequence as a constant, referenced directly, through an alias and inside another constant
+    [[], {'$ref': 0}, {'prim': 'PUSH', 'args': [{'prim': 'list', 'args': [{'prim': 'int'}]}, {'$ref': 0}]}, [{'$ref': 1}, {'prim': 'DROP'}]],
     # alias chain c2 = c1 = c0 and a poisoned constant c3 (references an unregistered hash)
     [{'prim': 'nat'}, {'$ref': 0}, {'$ref': 1}, {'prim': 'pair', 'args': [{'$unknown': 1}, {'$ref': 0}]}],
 ]
